@@ -22,7 +22,7 @@ ID = 'C32'
 LEVEL = 'exploration'
 RULE = ('grid: fixed diagrams (pk kinds int/auto/str/composite, required/optional to-one, unique, inheritance, one-to-one, '
         'lazy collection) x status presets (loaded, stub, partially loaded, lazy loaded, collection loaded / partially '
-        'loaded, query result, created, created+flushed, modified, modified+flushed, committed-then-modified, deleted, '
+        'loaded, query result, created, created into a loaded collection, created+flushed, modified, modified+flushed, committed-then-modified, deleted, '
         'deleted+flushed, fully loaded) x session end (commit, rollback(), exception, commit()+exception) x strict x '
         '(with-block, decorator), and for each such scenario every operation the diagram admits on every leftover '
         'object, outside a session and inside a fresh one, all applied to the same leftovers in a seed-dependent order '
@@ -166,6 +166,8 @@ def presets(d):
                             ['create', 'C', c9[1], create_vals(d, 'C', 9, parent=p9, tags=[t9])]]))
     out.append(('created_linked', [g(P(1)), g(T(1)), ['create', 'C', c9[1], create_vals(d, 'C', 9, parent=P(1), tags=[T(1)],
                                                                                     cls='C2' if d['inherit'] else None)]]))
+    out.append(('created_in_loaded_collection', [g(P(1)), ['members', P(1), 'kids'], g(T(1)), ['members', T(1), 'cs'],
+                                                 ['create', 'C', c9[1], create_vals(d, 'C', 9, parent=P(1), tags=[T(1)])]]))
     out.append(('created_flushed', [g(P(1)), ['create', 'C', c9[1], create_vals(d, 'C', 9, parent=P(1))],
                                     ['create', 'P', p9[1], create_vals(d, 'P', 9)], ['flush']]))
     mod = [g(P(1)), g(P(2)), g(T(1)), g(T(2)), g(T(3)), g(C(1)), ['assign', C(1), 'name', 'changed'],
@@ -509,9 +511,12 @@ def evaluate(ctx, env, case, status, shrink_ops):
     try:
         try:
             run_case(env, case, on_op, on_fail)
-        except M.Rejected:
+        except M.Rejected as r:
             ctx.rejected += 1
             ctx.count('rejected-script')
+            rs = ctx.extra.setdefault('rejection_samples', [])
+            if len(rs) < 4:
+                rs.append({'script': case['prep'], 'end': case['end'], 'pony_says': str(r)[:200]})
     finally:
         if shrink_env[0] is not None:
             M.cleanup_session_state(shrink_env[0])
@@ -908,7 +913,22 @@ def _is_empty_unchecked(case, message):
     return False
 
 
-EXCLUSIONS = {'entity_flush_unchecked': _entity_flush_unchecked,
+def _to_dict_unsaved_member(case, message):
+    """to_dict(with_collections=True) sorts the raw pk values of the collection items; a loaded collection of a leftover
+    object that still holds a never-saved object (created without a pk value in a session that was rolled back) makes
+    the sort fail with TypeError (None compared with int)"""
+    f, op, out = _failing(case)
+    if not op or op[0] != 'to_dict' or out.get('exc') != 'TypeError' or "'<' not supported" not in out.get('msg', ''):
+        return False
+    opts = op[2] or {}
+    if not opts.get('with_collections') or opts.get('related_objects'):
+        return False
+    unsaved = any(a[0] == 'create' and M.is_symbolic(a[2]) for a in case.get('prep', []))
+    return unsaved and case.get('end') in ('rollback', 'exception')
+
+
+EXCLUSIONS = {'to_dict_unsaved_member': _to_dict_unsaved_member,
+              'entity_flush_unchecked': _entity_flush_unchecked,
               'close_without_connection': _close_without_connection,
               'is_empty_unchecked': _is_empty_unchecked}
 
